@@ -296,8 +296,9 @@ def run(ctx):
                     mk = True
                 if index_of(xs) == (("param", pp), ("front", 4)) and is_const(y, 0x20):
                     mg = True
-                if xs[0] == "bin" and xs[1] == "&" and index_of(xs[2]) == (("param", pp), ("front", 5)) and is_const(xs[3], 0xF) and y[0] == "enum":
-                    ty, tyv = True, y[3]
+                if xs[0] == "bin" and xs[1] == "&" and index_of(xs[2]) == (("param", pp), ("front", 5)) and is_const(xs[3], 0xF) and \
+                        (y[0] == "enum" or (y[0] == "const" and isinstance(y[1], int) and not isinstance(y[1], bool))):
+                    ty, tyv = True, (y[3] if y[0] == "enum" else y[1])
         target = ret[1][1] if ret[0] == "call" and ret[1][0] == "func" else None
         want = {3: DEC, 1: f"{V3}._decode_handshake_response"}.get(tyv)
         if tyv == 1:
